@@ -45,6 +45,7 @@ From V Require Import Proto.AtomicListDefs.
 From V Require Import Proto.FdOwnerDefs.
 From V Require Import Calc.TaskBoxDefs.
 From V Require Import Proto.EventV2Defs.
+From V Require Import Arith.PolicyDefs.
 Extraction Blacklist List String Int.
 Cd "../ocaml".
 Extraction "model.ml"
@@ -270,5 +271,7 @@ Extraction "model.ml"
   EventV2.stuck
   Calc.run_start
   Calc.run_ev
+  Policy.chain
+  Policy.sched_vectorised
   (*END*).
 Cd "../coq".
